@@ -4,6 +4,7 @@ import (
 	"bytes"
 	"crypto/sha256"
 	"encoding/hex"
+	"errors"
 
 	"github.com/btcsuite/btcd/btcutil"
 	"github.com/btcsuite/btcd/btcutil/psbt"
@@ -151,29 +152,20 @@ func (b *BitcoinOnChain) GetVoutAndVerify(txHex string, params *swap.OpeningPara
 		return false, 0, err
 	}
 
-	var scriptOut *wire.TxOut
-	var vout uint32
-	for i, out := range msgTx.TxOut {
-		if out.Value == int64(params.Amount) {
-			scriptOut = out
-			vout = uint32(i)
-			break
-		}
-	}
-	if scriptOut == nil {
-		return false, 0, err
-	}
-
 	wantScript, err := b.GetOutputScript(params)
 	if err != nil {
 		return false, 0, err
 	}
 
-	if bytes.Compare(wantScript, scriptOut.PkScript) != 0 {
-		return false, 0, err
+	// The swap output is the one that pays the swap amount to the swap script.
+	// Other outputs (change) may carry the same value and may come first.
+	for i, out := range msgTx.TxOut {
+		if out.Value == int64(params.Amount) && bytes.Compare(wantScript, out.PkScript) == 0 {
+			return true, uint32(i), nil
+		}
 	}
 
-	return true, vout, nil
+	return false, 0, errors.New("transaction has no output paying the swap amount to the swap script")
 }
 
 func (b *BitcoinOnChain) GetOutputScript(params *swap.OpeningParams) ([]byte, error) {
